@@ -193,7 +193,7 @@ def lp_corpus(tier, seed):
         for i, (a, b, c) in enumerate(itertools.product(small, small, small)):
             inputs.append({"kind": "lp", "cands": ["A", "B"], "a": a, "b": b, "c": c, "p": [1, 0, 2, 3][i % 4], "vseed": rng.randrange(10 ** 6)})
     # random triples on 3..5 candidates, partial rankings, rational weights, chosen so that the exact answer has a small denominator
-    want = 3000 if qk else 30000
+    want = 2000 if qk else 30000
     tries = 0
     while want and tries < 400000:
         tries += 1
@@ -246,7 +246,7 @@ def weights_corpus(tier, seed):
                     if qk and n == 3 and rng.random() < 0.6:
                         continue
                     inputs.append({"kind": "weights", "cands": cands, "a": bag, "fix": fix, "via": via})
-    for _ in range(800 if qk else 16000):
+    for _ in range(600 if qk else 16000):
         n = rng.randint(2, 6)
         cands = D.ABC[:n]
         bag = []
